@@ -27,6 +27,10 @@ theorem cleanup_survives_channel_close_error : Gen.Proto.cleanupSurvivesChannelC
 a response that meets the end of the transport closes the connection -/
 theorem dispatch_closes_on_eof : Gen.Proto.dispatchClosesOnEof = true := by decide
 
+/-- obligation on the code (measured, `gen_proto.measure_box_refuses_on_closed_channel`): boxing by reference on a closed
+channel raises EOFError and registers nothing.  False = the object would be held for a peer that can never release it. -/
+theorem box_refuses_on_closed_channel : boxRefusesOnClosedChannel = true := by decide
+
 /-- **obligation on the code** (measured): a second `_cleanup` on the same connection returns quietly -/
 theorem cleanup_idempotent : Gen.Proto.cleanupIdempotent = true := by decide
 
@@ -257,7 +261,7 @@ theorem step_flags (l l' : Life) (e : Ev) (hs : step l e = some l') (h : Flags l
       · intro hc
         have := h.cl hc
         refine ⟨this.1, rfl, ?_⟩
-        simp [this.2.1, this.2.2, boxRegisters, boxRefusesOnClosedChannel]
+        simp [this.2.1, this.2.2, boxRegisters, box_refuses_on_closed_channel]
       · exact h.done
       · exact h.inc
       · intro ht
@@ -279,7 +283,7 @@ theorem step_flags (l l' : Life) (e : Ev) (hs : step l e = some l') (h : Flags l
         · intro hc
           have := h.cl hc
           refine ⟨this.1, this.2.1, ?_⟩
-          simp [this.2.2, boxRegisters, boxRefusesOnClosedChannel]
+          simp [this.2.2, boxRegisters, box_refuses_on_closed_channel]
         · exact h.done
         · exact h.inc
         · intro ht
@@ -588,7 +592,7 @@ theorem step_chanClosed (l l' : Life) (e : Ev) (hs : step l e = some l') (hi : F
     have h' : Flags { l with chanClosed := true, tablesCleared := l.tablesCleared && !boxRegisters l.chanClosed ref } := by
       refine hi.congr rfl rfl ?_ rfl rfl ?_
       · simp [hc]
-      · simp [hc, boxRegisters, boxRefusesOnClosedChannel]
+      · simp [hc, boxRegisters, box_refuses_on_closed_channel]
     exact (closeCall_flags r _ h').2.2.2 rfl
   | serveAllExit r =>
     simp only [step, Option.some.injEq] at hs; subst hs
